@@ -1,7 +1,7 @@
 SPECIFICATION Spec
 CONSTANTS SIntW = 8
           WordW = 8
-          FullA = FALSE
+          FullA = TRUE
           FullB = FALSE
 INVARIANT AllOk
 CHECK_DEADLOCK FALSE
